@@ -2,12 +2,13 @@ CONSTANTS
   NameSeq <- N2
   Slots = {1, 2}
   MaxNodes = 8
-  MaxDepth = 6
+  MaxDepth = 4
   Actions <- CoreActions
   InitDeclared = 2
 CONSTANT FoaIncrefsHigh <- No
+CONSTANT BuildFuns <- FunsQ
 INIT Init
-NEXT Next
+NEXT NextB
 CONSTRAINT Bound
 INVARIANT InvCanonical
 INVARIANT InvDenInjective
